@@ -438,7 +438,8 @@ class Network(Cached):
         :arg  edge_list: [[i,j]] for edges i -> j
         """
         #  Convert to Numpy array and get number of nodes
-        edges = np.array(edge_list)
+        #  (keep two columns also for an empty edge list)
+        edges = np.array(edge_list, dtype=int).reshape(-1, 2)
 
         if n_nodes is None:
             N = edges.max() + 1
@@ -619,8 +620,8 @@ class Network(Cached):
         #  Get directedness
         directed = graph.is_directed()
 
-        #  Extract edge list
-        edges = np.array(graph.get_edgelist())
+        #  Extract edge list (keep two columns also for an edgeless graph)
+        edges = np.array(graph.get_edgelist(), dtype=int).reshape(-1, 2)
 
         #  Symmetrize if undirected network
         if not directed:
